@@ -111,6 +111,61 @@ CHECKS.update({
                    "of recorded hash observations")),
 })
 
+FIT_NOTE = TB + ("Numeric relations (fit = model(params), residual weights, "
+                 "chi-square, k-equivalence) are evaluated by the harness "
+                 "with explicit tolerances (1e-9 relative for identities, "
+                 "1e-5/1e-4 for optimiser-dependent equalities) and enter "
+                 "the TLA+ clauses as flags.")
+FIT_TECH = ("TLA+ pass-structure design (FitPasses.tla) model-checked by TLC; "
+            "every recorded real fit (per-pass interval ranks, point masks, "
+            "unit-frame exponents, write-back) validated by TLC against "
+            "FitPassesClauses.tla")
+CHECKS.update({
+    "C04": dict(
+        engine="FitPasses", category="model_checking",
+        text=("Configuration lattice (5 models x segment x absolute / "
+              "relative-cp / plateau-search ranges incl. exactly v..v+3 "
+              "points and empty intervals x weighting x k x fixed/varied/"
+              "bounded/expression parameters) realised on synthetic and "
+              "recorded curves; TLC evaluates per recorded fit: fit column = "
+              "model(reported parameters) on the segment and NaN elsewhere, "
+              "residuals = (data - fit) x contact-point weights, chi-square "
+              "= sum over the used points, fixed parameters kept, varied "
+              "inside bounds, expressions satisfied, and after an "
+              "unsuccessful fit NaN columns, success False and NO result "
+              "keys of an earlier pass (design invariant "
+              "FailureLeavesNothing)."),
+        design_ref="5 (C04), 3.2", note=FIT_NOTE, technique=FIT_TECH),
+    "C05": dict(
+        engine="FitPasses", category="model_checking",
+        text=("Rank abstraction: on tiny curves with abscissae on an exact "
+              "binary grid EVERY pair of interval-bound ranks (on a sample, "
+              "between samples, outside; inverted, one-sided, zero-width, "
+              "empty) x both segments x segment layouts is fitted and TLC "
+              "computes the expected mask from the ranks (closed interval, "
+              "zero width = whole segment). On synthetic/recorded curves "
+              "every optimiser pass is recorded: pass structure (1 / 1+3 / "
+              "N+1), each anchored interval = requested + contact point of "
+              "the previous pass, scan grid length/monotony/ends, plateau "
+              "inside the scan, final lower bound = reported optimum, "
+              "reported range = last mask = requested range, xmin/xmax = "
+              "extreme abscissae in uncorrected units; also after a "
+              "preceding fit with a near-by interval on the same object."),
+        design_ref="5 (C05), 3.2", note=FIT_NOTE, technique=FIT_TECH),
+    "C11": dict(
+        engine="FitPasses", category="model_checking",
+        text=("Unit-frame exponents recovered exactly from the recorded "
+              "optimiser calls (k in {1/2, 1/4}: log_k of contact point "
+              "passed / stored is an integer): at EVERY pass of every range "
+              "type the guess is multiplied by k exactly once, the abscissa "
+              "once, the stored initial parameters stay in measured units; "
+              "xmin/xmax in uncorrected units. k-pairs (fit with k vs. k=1 "
+              "on fresh equal curves, power-law models, noise-free or noisy "
+              "with weighting off): contact point, baseline, fit curve, "
+              "mask, xmin/xmax equal and E x k^p equal (p = 3/2, 2)."),
+        design_ref="5 (C11), 3.2", note=FIT_NOTE, technique=FIT_TECH),
+})
+
 NOT_APPLICABLE = {
     "C01": ("Recovery of ground-truth parameters to optimiser precision is "
             "numerical convergence of lmfit/MINPACK on real-valued data; it "
